@@ -345,6 +345,10 @@ def build(p):
   v_tree_sum(p)
   v_clip(p)
   v_mean_aggregator(p)
+  # the weights are inputs too: no in-place operator on an object that came in through an argument (`total = w; total += w2`
+  # is numpy's in-place add on the caller's first weight), no state across calls (OWN frame analysis of both modules)
+  from . import C10
+  C10.v_frames(p, files=['fedjax/core/tree_util.py', 'fedjax/aggregators/aggregator.py'], min_sites=0)
   p.trust('REAL-ALG: arrays are R-valued at an arbitrary coordinate (rounding error not bounded); tree_map is leafwise; '
           'jit is identity + donation; results of jitted calls / arithmetic are fresh buffers',
           'tree_l2_squared is the squared global norm (its body — a Python sum of vdots over tree_leaves — is the definition); '
